@@ -17,3 +17,5 @@ vmod!(wl);
 vmod!(c01);
 #[cfg(not(feature = "shuttle"))]
 vmod!(c02);
+#[cfg(not(feature = "shuttle"))]
+vmod!(c05);
